@@ -10,12 +10,14 @@ from __future__ import annotations
 
 import ast
 
+from dataclasses import replace
+
 from ..cfg import CFG
 from ..kinds import has_call, reach
 from ..model import AnalysisError, unparse
 from ..report import RuleResult
-from ._c07_util import (KEEP_ORDER, KEEP_SET, call_arg, dependence_leaves, derived_names, enclosing_ifs, falls_off, fname, name_defs, reach3,
-                        real_defs, tv3, unfold_filtered_loops, unknown_leaves, xp, xt)
+from ._c07_util import (KEEP_ORDER, KEEP_SET, call_arg, dependence_leaves, derived_names, desugar_setattr, enclosing_ifs, falls_off, fname, is_setattr,
+                        literal_resolver, name_defs, reach3, real_defs, tv3, unfold_filtered_loops, unfold_generator_loops, unknown_leaves, xp, xt)
 
 ASSOC = {"vertices": "VERTEX", "cells": "CELL"}
 DELETE = ("np.delete", "numpy.delete")
@@ -31,6 +33,13 @@ def _targets(p):
     if len(out) < 3:
         raise AnalysisError("C07: remove_vertices / remove_cells implementations not found")
     return out
+
+
+def _norm(ctx, fn0):
+    """The normalised function (helpers expanded, constants substituted) with `setattr(obj, <constant name>, v)` read as
+    the attribute store it is (the name may come through a table such as {'VERTEX': 'vertices', ...}[association])."""
+    v = ctx.view(fn0)
+    return replace(v, node=desugar_setattr(v.node, literal_resolver(ctx.p, fn0)))
 
 
 def _is_shrink(expr, geom, fn_node, defs, depth=0) -> bool:
@@ -78,7 +87,7 @@ def rule_pair(ctx) -> RuleResult:
     p = ctx.p
     rcv0, ind, assoc = _rcv_signature(p)
     for fn0 in _targets(p):
-        fn = ctx.view(fn0)
+        fn = _norm(ctx, fn0)
         defs = name_defs(fn.node)
         g = CFG(fn.node)
         idx_param = fn.params[1]
@@ -123,7 +132,8 @@ def _pair_children(ctx, res, rcv0, ind, assoc):
     """ObjectBase.remove_children_values: which children reach the edit, and what the edit stores."""
     p = ctx.p
     rcv = ctx.view(rcv0)
-    node = unfold_filtered_loops(rcv.node)
+    # the children may be chosen by a generator method / a filtered comprehension: read the loop they stand for
+    node = unfold_filtered_loops(unfold_generator_loops(rcv, ctx.view, p))
     g = CFG(node)
     defs = name_defs(node)
     _, same_indices = derived_names(node, ind, KEEP_SET)
@@ -194,10 +204,14 @@ def _pair_children(ctx, res, rcv0, ind, assoc):
                      f"only {narrow} children are trimmed: data of the other kinds (text, ...) keep their old length after a geometry removal")
 
     # 3. the edit: <child>.values = np.delete(<the child's stored values>, <the indices>, axis=0)
-    def stored_values(e, child):
-        cands = real_defs(defs, e.id) if isinstance(e, ast.Name) else [e]
-        return bool(cands) and all(("_values" in unparse(c) or "fetch_values" in unparse(c)) and any(
-            isinstance(x, ast.Name) and x.id == child for x in ast.walk(c)) for c in cands)
+    def reads_child_store(e, child, depth=0):
+        """The expression is the child's array as stored: its private field or the workspace's fetch_values of it
+        (through locals, helper returns and other names of the child)."""
+        e = xp(e, node)
+        if isinstance(e, ast.Name):
+            cands = real_defs(defs, e.id)
+            return depth < 6 and bool(cands) and all(reads_child_store(c, child, depth + 1) for c in cands)
+        return ("_values" in unparse(e) or "fetch_values" in unparse(e)) and any(isinstance(x, ast.Name) and x.id == child for x in ast.walk(e))
 
     def trimmed(v, child):
         v = xp(v, node)
@@ -206,7 +220,7 @@ def _pair_children(ctx, res, rcv0, ind, assoc):
         arr, obj, axis = call_arg(v, 0, "arr"), call_arg(v, 1, "obj"), call_arg(v, 2, "axis")
         if arr is None or obj is None or not (isinstance(axis, ast.Constant) and axis.value == 0 and axis.value is not False):
             return False
-        return stored_values(arr, child) and same_indices(obj)
+        return reads_child_store(arr, child) and same_indices(obj)
 
     asg = [(child, n.ast) for child, _, _, edits in sites for n in edits if any(isinstance(t, ast.Attribute) and t.attr == "values" for t in n.ast.targets)]
     ok = bool(asg) and all(trimmed(a.value, child) for child, a in asg)
@@ -229,10 +243,12 @@ def rule_order(ctx) -> RuleResult:
     )
     p = ctx.p
     for fn0 in _targets(p):
-        fn = ctx.view(fn0)
+        fn = _norm(ctx, fn0)
         g = CFG(fn.node)
-        stores = [n for n in g.nodes if n.kind == "stmt" and isinstance(n.ast, (ast.Assign, ast.AugAssign, ast.AnnAssign)) and any(
-            isinstance(x, ast.Attribute) and isinstance(x.ctx, ast.Store) and unparse(x.value) == "self" for x in ast.walk(n.ast))]
+        stores = [n for n in g.nodes if n.kind == "stmt" and (
+            (isinstance(n.ast, (ast.Assign, ast.AugAssign, ast.AnnAssign)) and any(
+                isinstance(x, ast.Attribute) and isinstance(x.ctx, ast.Store) and unparse(x.value) == "self" for x in ast.walk(n.ast)))
+            or (isinstance(n.ast, ast.Expr) and is_setattr(n.ast.value) and unparse(n.ast.value.args[0]) == "self"))]
         bad = []
         for s in stores:
             for n in reach(g, [m for m, _ in s.succ]):
@@ -381,7 +397,7 @@ def rule_maskonly(ctx) -> RuleResult:
     )
     p = ctx.p
     for fn0 in _targets(p):
-        fn = ctx.view(fn0)
+        fn = _norm(ctx, fn0)
         idx = fn.params[1]
         # the raw list under all its names: copies and element-for-element conversions of the parameter
         raw, _ = derived_names(fn.node, idx, KEEP_ORDER)
